@@ -18,12 +18,15 @@ TECHNIQUE = "runtime monitoring: structural equality of parseNestedParens(collap
 RULE = ("all ordered pairs of items from a hostile token table (quotes, backslash runs, CR, LF, braces, "
         "parens, NIL-like, empty, 8-bit, ints, None, nested) as [[a, b]]; all byte strings of length <= 2 "
         "over a 12-byte hostile alphabet; random nested lists of depth <= 4 with byte strings of length "
-        "0/1/small/999..1001/5000 over all byte values weighted to the hostile ones.  Distinct = the "
+        "0/1/small/999..1001/5000 over all byte values weighted to the hostile ones; long items of 9999, 10000, "
+        "10001, 65536, 100000 and 1000000 octets (with and without CR/LF, alone, nested, and two in one list: "
+        "literal headers with 4..7 digit counts).  Distinct = the "
         "structure; non-trivial = contains a byte string that needs quoting or a literal, or nesting.")
 ASSUMPTIONS = ["top level is one parenthesized list (the statement's 'parenthesized nested list')"]
 SHARDS = {"quick": 4, "thorough": 16}
 FLOORS = {"structures_compared": 15000, "literals_emitted": 2000, "quoted_strings_emitted": 15000,
-          "nested_lists_emitted": 5000, "items_with_quote_char": 1000, "nil_like_strings": 200}
+          "nested_lists_emitted": 5000, "items_with_quote_char": 1000, "nil_like_strings": 200,
+          "long_item_cases": 30, "items_of_10000_octets_or_more": 25}
 READY = True
 
 HOSTILE = b'"\\\r\n{}()[] \t\x00\x80\xffNILnil0123%*'
@@ -126,7 +129,19 @@ def from_json(x):
     return x
 
 
-def check(ctx, imap4, inner):
+LONG_LENGTHS = (9999, 10000, 10001, 65536, 100000, 1000000)
+
+
+def long_case(n, content, layout):
+    item = (b"line one\r\nline two\n" + b"x\\\"(){" if content == "crlf" else b"") .ljust(n, b"a")[:n]
+    if layout == "alone":
+        return [item]
+    if layout == "nested":
+        return [b"x", [None, [item], 7], b"tail"]
+    return [item, 5, item[:-1] + b"\r", b"z"]
+
+
+def check(ctx, imap4, inner, long_params=None):
     x = [inner]
     ctx.evaluated()
     trivial = True
@@ -140,6 +155,8 @@ def check(ctx, imap4, inner):
                 ctx.count("items_with_quote_char")
             if b"\\" in i:
                 ctx.count("items_with_backslash")
+            if len(i) >= 10000:
+                ctx.count("items_of_10000_octets_or_more")
             if i.upper() == b"NIL":
                 ctx.count("nil_like_strings")
             trivial = False
@@ -165,7 +182,13 @@ def check(ctx, imap4, inner):
                 "swallows its closing quote)")
         det["counterfactual"] = "same structure with every backslash replaced by '/' round-trips"
         det["stage"] = stage
-    det["structure"] = to_json(x)
+    if long_params is not None:  # megabyte items are re-generated on replay instead of being stored
+        det["long_case"] = list(long_params)
+        for k in ("wire", "parsed", "expected"):
+            if k in det:
+                det[k] = repr(det[k])[:300]
+    else:
+        det["structure"] = to_json(x)
     det["structure_repr"] = repr(x)[:600]
     ctx.violation(key, what, det)
 
@@ -189,6 +212,14 @@ def run(ctx):
             check(ctx, imap4, [s])
             check(ctx, imap4, [s, 5, s])
             ctx.count("short_strings")
+    # -- long items: literal headers with 4..7 digit octet counts
+    for n in LONG_LENGTHS:
+        for content in ("crlf", "plain"):
+            for layout in ("alone", "nested", "two"):
+                k += 1
+                if ctx.owns(k):
+                    check(ctx, imap4, long_case(n, content, layout), long_params=(n, content, layout))
+                    ctx.count("long_item_cases")
     # -- random nested structures
     for i in ctx.cases(30000, 1500000):
         rng = ctx.case_rng(i)
@@ -216,5 +247,9 @@ def _safe(f):
 def replay(ctx, w):
     from twisted.mail import imap4
 
-    x = from_json(w["witness"]["structure"])
+    wit = w["witness"]
+    if "long_case" in wit:
+        check(ctx, imap4, long_case(*wit["long_case"]), long_params=tuple(wit["long_case"]))
+        return
+    x = from_json(wit["structure"])
     check(ctx, imap4, x[0])
